@@ -293,7 +293,8 @@ def descs_trav(S, density, salt, big=False, unks=(0, 1, 2)):
 
 def attr_vectors(n, salt, count):
     allv = list(itertools.product((0, 1, 2, 4), repeat=n))
-    out = [[1] * n, [2] * n, [0] + [4] * (n - 1), [4 if x % 2 else 0 for x in range(n)]]
+    out = [[1] * n, [0] * n, [2 if x % 2 == 0 else 0 for x in range(n)], [0] + [4] * (n - 1),
+           [4 if x % 2 else 0 for x in range(n)], [2] * n]
     i = 0
     while len(out) < min(count, len(allv)) and i < 400:
         v = list(allv[h(salt, i) % len(allv)])
